@@ -2,6 +2,7 @@ package main
 
 import (
 	"fmt"
+	"strings"
 	"go/token"
 	"go/types"
 
@@ -220,6 +221,40 @@ func init() {
 		fr.U().declFun("time.after", fmt.Sprintf("(declare-fun time.after (%s %s) Bool)", a[0].S, a[0].S))
 		return fr.mkVal(sx("time.after", a[1].T, a[0].T), resultType(c))
 	}
+	// sync/atomic on a field or cell: sequentially consistent read-modify-write of that location
+	for _, w := range []struct {
+		n string
+		t types.Type
+	}{{"Uint32", types.Typ[types.Uint32]}, {"Uint64", types.Typ[types.Uint64]}, {"Int32", types.Typ[types.Int32]}, {"Int64", types.Typ[types.Int64]}} {
+		w := w
+		S["sync/atomic.Add"+w.n] = func(fr *Frame, c *ssa.CallCommon, a []*Val, av []ssa.Value, pos token.Pos) *Val {
+			l := fr.locOf(av[0])
+			old := fr.loadLoc(l)
+			nv := fr.vc.define("atomic.add", SInt, wrapInt64(sx("+", old.T, a[1].T), w.t))
+			fr.storeLoc(l, nv)
+			return fr.mkVal(nv, w.t)
+		}
+		S["sync/atomic.Load"+w.n] = func(fr *Frame, c *ssa.CallCommon, a []*Val, av []ssa.Value, pos token.Pos) *Val {
+			return fr.loadLoc(fr.locOf(av[0]))
+		}
+		S["sync/atomic.Store"+w.n] = func(fr *Frame, c *ssa.CallCommon, a []*Val, av []ssa.Value, pos token.Pos) *Val {
+			fr.storeLoc(fr.locOf(av[0]), a[1].T)
+			return nil
+		}
+		S["sync/atomic.Swap"+w.n] = func(fr *Frame, c *ssa.CallCommon, a []*Val, av []ssa.Value, pos token.Pos) *Val {
+			l := fr.locOf(av[0])
+			old := fr.loadLoc(l)
+			fr.storeLoc(l, a[1].T)
+			return old
+		}
+		S["sync/atomic.CompareAndSwap"+w.n] = func(fr *Frame, c *ssa.CallCommon, a []*Val, av []ssa.Value, pos token.Pos) *Val {
+			l := fr.locOf(av[0])
+			old := fr.loadLoc(l)
+			ok := fr.vc.define("cas.ok", SBool, eq(old.T, a[1].T))
+			fr.storeLoc(l, ite(ok, a[2].T, old.T))
+			return fr.mkVal(ok, types.Typ[types.Bool])
+		}
+	}
 	// strings / pure helpers returning values: pure frame default suffices.
 
 	I := externInvoke
@@ -245,14 +280,53 @@ func init() {
 	}
 }
 
+const ctxDoneHeap = "$CD"
+
+var ctxDoneSort = arrSort(SIface, SBool)
+
+// Contexts (DESIGN.md 5.5): $CD is the set of contexts this goroutine has observed to be
+// done. A successful receive from ctx.Done() adds ctx; ctx.Err() is non-nil for members
+// and a non-nil result adds ctx. Done-ness is monotone, so the set only grows.
 func (fr *Frame) ctxObserver(m string, recv *Val, c *ssa.CallCommon) *Val {
 	rt := resultType(c)
+	vc := fr.vc
 	switch m {
 	case "Done":
 		fr.U().declFun("ctx.done.ch", "(declare-fun ctx.done.ch (Iface) Int)")
 		return fr.mkVal(sx("ctx.done.ch", recv.T), rt)
+	case "Err":
+		v := fr.freshVal("ctx.Err", rt)
+		cd := vc.heap(fr.st, ctxDoneHeap, ctxDoneSort)
+		vc.assume(fr.reach, imp(sel(cd, recv.T), not(eq(v.T, "(mkI 0 0)"))))
+		vc.setHeap(fr.st, ctxDoneHeap, ctxDoneSort, ite(and(fr.reach, not(eq(v.T, "(mkI 0 0)"))), store(cd, recv.T, "true"), cd))
+		return v
 	}
 	return fr.freshVal("ctx."+m, rt)
+}
+
+// ctxOfDoneChan returns the context term when ch is syntactically ctx.Done().
+func (fr *Frame) ctxOfDoneChan(ch *Val) (Term, bool) {
+	t := ch.T
+	if d, ok := fr.vc.defs[t]; ok {
+		t = d
+	}
+	if strings.HasPrefix(t, "(ctx.done.ch ") {
+		return strings.TrimSuffix(strings.TrimPrefix(t, "(ctx.done.ch "), ")"), true
+	}
+	return "", false
+}
+
+// wrapInt64 is wrapInt with exact 64-bit wrap-around (used for atomic counters).
+func wrapInt64(v Term, t types.Type) Term {
+	b := t.Underlying().(*types.Basic)
+	bits, signed := intBits(b)
+	if bits <= 32 {
+		return wrapInt(v, t)
+	}
+	if !signed {
+		return sx("mod", v, "18446744073709551616")
+	}
+	return v
 }
 
 // beRead models binary.BigEndian.UintN(b): bounds check + value as a function of the bytes.
